@@ -174,3 +174,8 @@ func idsString(ids []int) string {
 	}
 	return strings.Join(ss, ",")
 }
+
+func buffer_chunks(src *rawSrc, content []byte) buffer.Buffer {
+	var a, b atomic.Int32
+	return buffer.NewCASBufferFromChunkReader(digestOf(content), src, backend(&a, &b))
+}
